@@ -18,7 +18,7 @@ HARNESS2 = ["vcr/test/zz_verif_c01s_test.go"]
 HARNESSES = [(PKG, HARNESS, "c01"), (PKG2, HARNESS2, "c01s")]
 
 REQUIRED = ["check_order_irrelevant_for_accept", "valid_only_if", "key_is_from_the_issuers_document",
-            "vp_valid_only_if", "vp_every_other_credential_is_signature_checked", "fact_check_signature_flag_is_per_credential", "untrust_is_effective", "untrusted_issuer_is_rejected", "fact_trust_store_code", "fact_wiring", "fact_store_credential_always_verifies_the_signature", "stored_credentials_were_signature_checked", "resolve_reports_only_signature_checked", "fact_verifier_is_stateless", "fact_strict_mode_fixes_the_contexts", "fact_key_lookup_iterates_the_relationship", "fact_status_list_renewal_loads_revocations", "fact_status_list_refresh_replaces_all_columns", "api_vc_valid_only_if", "wallet_lists_only_current_unrevoked", "wallet_validate_ok", "vp_check_order_irrelevant_for_accept", "empty_presentation_holder_is_not_checked",
+            "vp_valid_only_if", "vp_every_other_credential_is_signature_checked", "fact_check_signature_flag_is_per_credential", "untrust_is_effective", "untrusted_issuer_is_rejected", "fact_trust_store_code", "fact_wiring", "fact_key_lookup_relationship_is_constant", "proof_purpose_does_not_select_the_relationship", "fact_store_credential_always_verifies_the_signature", "stored_credentials_were_signature_checked", "resolve_reports_only_signature_checked", "fact_verifier_is_stateless", "fact_strict_mode_fixes_the_contexts", "fact_key_lookup_iterates_the_relationship", "fact_status_list_renewal_loads_revocations", "fact_status_list_refresh_replaces_all_columns", "api_vc_valid_only_if", "wallet_lists_only_current_unrevoked", "wallet_validate_ok", "vp_check_order_irrelevant_for_accept", "empty_presentation_holder_is_not_checked",
             "tamper_evident", "tamper_evident_jwt", "tamper_evident_vp", "undefined_member_unsigned",
             "own_output_verifies_ld", "own_output_verifies_jwt", "own_presentation_verifies",
             "fact_verify_check_sequence", "fact_doVerifyVP_check_sequence", "fact_jsonldProof_check_sequence",
